@@ -112,7 +112,11 @@ def gen_cases(tier, seed):
         if rng.random() < 0.7:
             b[0] = rng.choice([0x80, 0x50, 0x40, 0x00, 0x10, 0x20, 0x30, 0xa0, 0xc0, 0x08, 0x88, 0xb4]); b[1] = rng.choice([0, 0x80])
         cases += all_ops(bytes(b), ops=rng.sample(OPS, 3))
-    return cases, {"small_exhaustive_cases": n_small, "structured_frames": len(structured), "element_cut_frames": n_elcut, "total": len(cases)}
+    wide = F.wide(rng, q)
+    cases += ["iter " + hx(b) for b in wide["iter"]]
+    for rt, buf in wide["mgmt"] + wide["classify"]:
+        cases += ["classify %d %s" % (rt, hx(buf)), "mgmt %d %s" % (rt, hx(buf)), "eapol %d %s" % (rt, hx(buf))]
+    return cases, {"inputs_over_65535_bytes": len(wide["iter"]) + 3 * len(wide["mgmt"] + wide["classify"]), "small_exhaustive_cases": n_small, "structured_frames": len(structured), "element_cut_frames": n_elcut, "total": len(cases)}
 
 
 def judge(case, impl, model, spec=None):
